@@ -189,4 +189,28 @@ def abort (syncNumrecs : File → File) (s : NCState) (d : Disk) : Disk :=
     else (s1, d)
   if doUnlink then none else d1
 
+
+/-! ### metadata calls and the file: define mode writes nothing -/
+
+/-- the metadata-changing calls (`ncmpi_def_dim`, `ncmpi_def_var`, `ncmpi_put_att_*`, `ncmpi_copy_att`,
+    `ncmpi_del_att`, `ncmpi_rename_att/dim/var`, `ncmpi_set_fill`, `ncmpi_def_var_fill`).  `copyAtt srcIndef` carries
+    the mode of the SOURCE file, which the C has at hand (`ncp_in`) but must not use for the decision. -/
+inductive MetaOp where
+  | defDim | defVar | putAtt | delAtt | renameAtt | renameDim | renameVar | setFill | defVarFill
+  | copyAtt (srcIndef : Bool)
+deriving Repr, DecidableEq
+
+/-- calls the library also accepts in data mode (when the new value fits); there they rewrite the header at once -/
+def MetaOp.inDataMode : MetaOp → Bool
+  | .putAtt | .renameAtt | .renameDim | .renameVar | .copyAtt _ => true
+  | _ => false
+
+/-- effect on the disk of one metadata call on a file whose state is `s` (for `copyAtt`: the OUTPUT file):
+    `if (!NC_indef(ncp_out)) { … write the entire header … }` — in define mode only the in-memory header changes;
+    `writeHdr` stands for `ncmpio_write_header` -/
+def metaOpDisk (writeHdr : File → File) (s : NCState) (d : Disk) (op : MetaOp) : Disk :=
+  if s.indef then d
+  else if op.inDataMode then d.map writeHdr
+  else d   -- rejected with NC_ENOTINDEFINE
+
 end PnVerif.Redef
